@@ -25,6 +25,7 @@ CONF = {
     "C04": dict(level="exploration", workers=16, quick=dict(cases=4000, size=80), thorough=dict(cases=15000, size=100)),
     "C05": dict(level="exploration", workers=16, quick=dict(cases=500, size=60), thorough=dict(cases=12000, size=100)),
     "C06": dict(level="exploration", workers=16, quick=dict(cases=1500, size=70), thorough=dict(cases=15000, size=100)),
+    "C07": dict(level="exploration", workers=16, quick=dict(cases=3000, size=80), thorough=dict(cases=20000, size=100)),
     "C08": dict(level="exploration", workers=16, quick=dict(cases=1500, size=70), thorough=dict(cases=15000, size=100)),
     "C09": dict(level="exploration", workers=16, quick=dict(cases=800, size=60), thorough=dict(cases=10000, size=100)),
     "C15": dict(level="exploration", workers=16, quick=dict(cases=3000, size=80), thorough=dict(cases=15000, size=100)),
